@@ -54,8 +54,9 @@ def snapshot(root, skip):
     return snap
 
 def hostile_names(sbox, rng):
-    esc = os.path.join(sbox, "outer", "ESC").encode()
-    base = [b"..", b"../x", b"../../x", b"a/../../b", b"..\\x", b"/abs", esc[:30], b"./../y", b"x/..", b"...", b"..a", b"a..", b"/",
+    esc = os.path.join(sbox, "outer", "E").encode()       # absolute, inside the watched tree, outside the extraction directory
+    base = [b"..", b"../x", b"../../x", b"a/../../b", b"..\\x", b"/abs", esc[:30], (esc + b"/x")[:30], (esc + b"/p/q")[:30],
+            os.path.join(sbox, "outer").encode()[:30], b"./../y", b"x/..", b"...", b"..a", b"a..", b"/",
             b"//", b"a//b", b"..//x", b"/../z", b"\\..\\w", b". .", b"../", b"x/../../../../y", b".. /q"]
     for _ in range(6):
         base.append(bytes(rng.choice([46, 46, 47, 92, 97, 98]) for _ in range(rng.randint(1, 12))))
@@ -128,8 +129,12 @@ def run_unadf(unadf, sbox, img, mode, kids, rng):
 
 def oracle(res):
     unadf = vlib.build_unadf()
-    sbox = os.path.join(vlib.scratch(), "c20box")
-    os.makedirs(sbox, exist_ok=True)
+    # a SHORT sandbox path: entry names are at most 30 bytes, and absolute names that point into the sandbox
+    # (outside the extraction directory) must fit
+    import tempfile, atexit
+    base = "/dev/shm" if os.path.isdir("/dev/shm") and os.access("/dev/shm", os.W_OK) else tempfile.gettempdir()
+    sbox = tempfile.mkdtemp(prefix="q", dir=base)
+    atexit.register(lambda: shutil.rmtree(sbox, ignore_errors=True))
     rng = vlib.rng_for(res.seed, "C20img")
     bad = []
     nimg = 12 if res.tier == "quick" else 120
